@@ -100,10 +100,31 @@ func (U *Universe) ownerKey(owner types.Type) string {
 
 func (U *Universe) heapOfField(owner types.Type, f *types.Var) *heapInfo {
 	owner = types.Unalias(owner)
+	var h *heapInfo
 	if n, ok := owner.(*types.Named); ok {
-		return U.fieldHeap(n, f)
+		h = U.fieldHeap(n, f)
+	} else {
+		h = U.anonFieldHeap(owner.Underlying().(*types.Struct), f)
 	}
-	return U.anonFieldHeap(owner.Underlying().(*types.Struct), f)
+	return U.privOf(h)
+}
+
+// privOf: while the encoder works on one of the activation's own variables
+// (U.priv names it), field and deref heaps are that variable's private
+// arrays, not the heaps shared by all objects of the type: a store to a
+// local struct must not look like a change of the syntax tree to a spec
+// function that takes the tree's heaps.
+func (U *Universe) privOf(h *heapInfo) *heapInfo {
+	if U.priv == "" || strings.HasPrefix(h.Key, "priv.") || strings.HasPrefix(h.Key, "global.") {
+		return h
+	}
+	key := "priv." + U.priv + "." + h.Key
+	if ph, ok := U.heaps[key]; ok {
+		return ph
+	}
+	ph := &heapInfo{Key: key, Sym: "HP." + U.priv + "." + h.Key, Elem: h.Elem, Var: h.Var}
+	U.heaps[key] = ph // not in heapO: nothing outside the activation can touch it
+	return ph
 }
 
 // loadField reads field i of struct type owner located at ref.
